@@ -22,6 +22,12 @@
 //                       frame with number_of_raw_data_blocks_in_frame = #blocks-1 > 0 written by the reference
 //                       writer (header crc 0xa5a5, crc of block i 0xc300+i, fullness 0x7ff) ++ tail, Decode
 //                       -> (0 frame <dec>)
+//   (11 (op...))        a HISTORY on one ADTS object (NewADTS), op = (0 cfg) SetASC | (1 raw) Encode |
+//                       (2 data) Decode | (3 obj sr ch) *adts.ASC() = config.  One entry per op:
+//                       (0 obj sr ch) | (1 code obj sr ch) for SetASC, (0 frame) | (1 code) for Encode,
+//                       <dec> for Decode, (0 obj sr ch) for the assignment.  Every frame returned by
+//                       Encode is KEPT (not copied) and reported as it is after the last operation; the
+//                       raw input of each Encode is overwritten right after the call.
 //   <dec> = (0 raw left obj sr ch) | (1 code obj sr ch) | (2)      (obj sr ch = ASC() afterwards)
 // Error codes: 1 "requires 7+", 2 "invalid signature", 3 "requires 2+" (CRC), 4 "requires n"
 // (raw block), 5 invalid object, 6 invalid sample-rate, 7 invalid channels, 8 ASC "requires 2",
@@ -554,6 +560,105 @@ func vC11Run(c vSx) (r vC11Res) {
 				}
 			}
 		}
+	case 11:
+		ai, _ := NewADTS()
+		a := ai.(*ADTSImpl)
+		type kept struct {
+			pos       int    // index in outs
+			frame     []byte // the slice Encode returned, NOT copied
+			atCall    []byte // copy taken at the call
+			raw       []byte // copy of the raw input
+			known     bool   // configuration in force at the call is known to the shadow
+			o, sr, ch int
+		}
+		var keeps []kept
+		var outs []vSx
+		// shadow of the configuration last established by SetASC / Decode / assignment
+		known, so, ssr, sch := true, 0, 0, 0
+		for _, op := range c.l[1].l {
+			if !op.isList() || len(op.l) < 2 || !op.l[0].isInt() {
+				outs = append(outs, vL(vZ(-1)))
+				continue
+			}
+			switch op.l[0].int() {
+			case 0:
+				cfg := append([]byte{}, op.l[1].b...)
+				err := a.SetASC(cfg)
+				o, sr, ch := int(a.asc.Object), int(a.asc.SampleRate), int(a.asc.Channels)
+				if err != nil {
+					outs = append(outs, vL(vZ(1), vI(vC11Code(err, true)), vI(o), vI(sr), vI(ch)))
+				} else {
+					outs = append(outs, vL(vZ(0), vI(o), vI(sr), vI(ch)))
+				}
+				if len(cfg) >= 2 {
+					v := uint(cfg[0])<<8 | uint(cfg[1])
+					known, so, ssr, sch = true, int(v>>11), int(v>>7)&15, int(v>>3)&15
+				}
+				for i := range cfg {
+					cfg[i] = 0xee
+				}
+			case 1:
+				raw := append([]byte{}, op.l[1].b...)
+				frame, err := a.Encode(raw)
+				if err != nil {
+					outs = append(outs, vErr(vC11Code(err, false)))
+					if known && vC11Accepted(so, ssr, sch) {
+						r.bad("history-encode", fmt.Sprintf("op %d: configuration (%d,%d,%d) in force, Encode fails: %v", len(outs)-1, so, ssr, sch, err))
+					}
+				} else {
+					keeps = append(keeps, kept{pos: len(outs), frame: frame, atCall: append([]byte{}, frame...), raw: append([]byte{}, raw...), known: known, o: so, sr: ssr, ch: sch})
+					outs = append(outs, vL(vZ(-2))) // filled in at the end from the kept slice
+					if known && !vC11Accepted(so, ssr, sch) {
+						r.bad("history-encode", fmt.Sprintf("op %d: configuration (%d,%d,%d) in force is not accepted but Encode succeeds", len(outs)-1, so, ssr, sch))
+					}
+				}
+				for i := range raw { // the caller reuses its input buffer
+					raw[i] ^= 0xff
+				}
+			case 2:
+				data := append([]byte{}, op.l[1].b...)
+				d := vC11Decode(a, data)
+				outs = append(outs, d.obs())
+				if d.panicked {
+					r.bad("no-panic", "Decode panicked inside a history")
+				}
+				if h, _, _, ok := vC11IsoParse(data); ok {
+					r.checkDecode(fmt.Sprintf("history op %d", len(outs)-1), data, d)
+					known, so, ssr, sch = true, int(h.profile)+1, int(h.sfi), int(h.ch)
+				} else if len(data) > 7 {
+					known = false // a non-conformant frame may or may not have replaced the configuration
+				}
+			case 3:
+				o, sr, ch := op.l[1].int(), op.l[2].int(), op.l[3].int()
+				*a.ASC() = AudioSpecificConfig{Object: ObjectType(o), SampleRate: SampleRateIndex(sr), Channels: Channels(ch)}
+				outs = append(outs, vL(vZ(0), vI(int(a.asc.Object)), vI(int(a.asc.SampleRate)), vI(int(a.asc.Channels))))
+				known, so, ssr, sch = true, o&255, sr&255, ch&255
+			default:
+				outs = append(outs, vL(vZ(-1)))
+			}
+		}
+		// at the end: every kept frame must still be what it was and carry the configuration in
+		// force at ITS call
+		for i, kp := range keeps {
+			outs[kp.pos] = vOk(vB(kp.frame))
+			if !bytes.Equal(kp.frame, kp.atCall) {
+				r.bad("history-kept-result", fmt.Sprintf("frame %d (%d bytes) changed after later operations", i, len(kp.frame)))
+				continue
+			}
+			if !kp.known || !vC11Accepted(kp.o, kp.sr, kp.ch) || len(kp.raw) < 1 || len(kp.raw) > 8184 {
+				continue
+			}
+			d := vC11Decode(&ADTSImpl{}, kp.frame)
+			h, raw2, rest, ok := vC11IsoParse(kp.frame)
+			if d.panicked || d.err != nil || !bytes.Equal(d.raw, kp.raw) || len(d.left) != 0 ||
+				vC11ProfileOf(d.o) != vC11ProfileOf(kp.o) || d.sr != kp.sr || d.ch != kp.ch {
+				r.bad("history-config", fmt.Sprintf("frame %d encoded under (%d,%d,%d) with %d raw bytes decodes as (%d,%d,%d), %d raw bytes, err %v", i, kp.o, kp.sr, kp.ch, len(kp.raw), d.o, d.sr, d.ch, len(d.raw), d.err))
+			} else if !ok || len(rest) != 0 || !bytes.Equal(raw2, kp.raw) || int(h.profile) != vC11ProfileOf(kp.o) || int(h.sfi) != kp.sr || int(h.ch) != kp.ch {
+				r.bad("history-config", fmt.Sprintf("frame %d encoded under (%d,%d,%d): reference parser reads profile %d index %d channels %d", i, kp.o, kp.sr, kp.ch, h.profile, h.sfi, h.ch))
+			}
+		}
+		r.nontrivial = len(keeps) >= 2
+		r.obs = vLs(outs)
 	case 10:
 		h := vC11Hdr{id: uint(c.l[1].int()), pa: uint(c.l[2].int()), profile: uint(c.l[3].int()), sfi: uint(c.l[4].int()),
 			ch: uint(c.l[5].int()), fullness: 0x7ff, crc: 0xa5a5}
@@ -733,7 +838,60 @@ func vC11MaxRaw(pa uint) int {
 	return 8184
 }
 
+// a history of 2..6 (sometimes more) operations on one ADTS object: configurations are changed by
+// SetASC, by decoding frames of other configurations and by assignment through ASC(), with
+// Encode calls in between
+func vC11GenHistory(rnd *vRng) vSx {
+	var ops []vSx
+	n := rnd.rng(2, 6)
+	if rnd.chance(1, 10) {
+		n = rnd.rng(7, 12)
+	}
+	cfgBytes := func() []byte {
+		v := uint(vC11Objs[rnd.intn(5)])<<11 | uint(rnd.rng(1, 12))<<7 | uint(rnd.rng(1, 7))<<3 | uint(rnd.intn(8))
+		return []byte{byte(v >> 8), byte(v)}
+	}
+	ops = append(ops, vL(vZ(0), vB(cfgBytes())))
+	for len(ops) < n {
+		switch p := rnd.intn(20); {
+		case p < 8:
+			ln := rnd.pickInt(1, 2, 9, rnd.rng(1, 40), rnd.rng(1, 300))
+			ops = append(ops, vL(vZ(1), vB(rnd.bytes(ln))))
+		case p < 11:
+			cfg := cfgBytes()
+			switch rnd.intn(8) {
+			case 0:
+				cfg = rnd.bytes(2)
+			case 1:
+				cfg = cfg[:1]
+			}
+			ops = append(ops, vL(vZ(0), vB(cfg)))
+		case p < 16:
+			h := vC11GenHdr(rnd, !rnd.chance(1, 12))
+			data := vC11IsoFrame(h, rnd.bytes(rnd.rng(1, 30)))
+			switch rnd.intn(10) {
+			case 0:
+				data = data[:rnd.intn(len(data))]
+			case 1:
+				data = append(data, 0xff, 0xf1, 0x50)
+			}
+			ops = append(ops, vL(vZ(2), vB(data)))
+		default:
+			o, sr, ch := vC11Objs[rnd.intn(5)], rnd.rng(1, 12), rnd.rng(1, 7)
+			if rnd.chance(1, 6) {
+				o, sr, ch = rnd.intn(256), rnd.intn(20), rnd.intn(12)
+			}
+			ops = append(ops, vL(vZ(3), vI(o), vI(sr), vI(ch)))
+		}
+	}
+	ops = append(ops, vL(vZ(1), vB(rnd.bytes(rnd.rng(1, 20)))))
+	return vL(vZ(11), vLs(ops))
+}
+
 func vC11Gen(rnd *vRng) vSx {
+	if rnd.chance(1, 5) {
+		return vC11GenHistory(rnd)
+	}
 	switch p := rnd.intn(100); {
 	case p < 30: // encoder round trip
 		o, sr, ch := vC11Objs[rnd.intn(5)], rnd.rng(1, 12), rnd.rng(1, 7)
@@ -950,6 +1108,31 @@ func TestVerifC11(t *testing.T) {
 					runOne(vL(vZ(1), vI(o), vI(sr), vI(ch), vB(k.rnd.bytes(vC11RawFor(i, 7)))))
 				}
 				cfg++
+			}
+		}
+	}
+	// histories: Encode, change the configuration in each of the three ways, Encode again -- for
+	// every ordered pair of object types and a rotating index/channels pair
+	hp := 0
+	for _, o1 := range vC11Objs {
+		for _, o2 := range vC11Objs {
+			for way := 0; way < 3; way++ {
+				sr1, ch1, sr2, ch2 := 1+hp%12, 1+hp%7, 1+(hp+5)%12, 1+(hp+3)%7
+				v1 := uint(o1)<<11 | uint(sr1)<<7 | uint(ch1)<<3
+				var change vSx
+				switch way {
+				case 0:
+					v2 := uint(o2)<<11 | uint(sr2)<<7 | uint(ch2)<<3
+					change = vL(vZ(0), vB([]byte{byte(v2 >> 8), byte(v2)}))
+				case 1:
+					h := vC11Hdr{id: uint(hp % 2), pa: uint(hp / 2 % 2), profile: uint(vC11ProfileOf(o2)), sfi: uint(sr2), ch: uint(ch2), fullness: 0x7ff, crc: 0x1234}
+					change = vL(vZ(2), vB(vC11IsoFrame(h, k.rnd.bytes(1+hp%9))))
+				default:
+					change = vL(vZ(3), vI(o2), vI(sr2), vI(ch2))
+				}
+				runOne(vL(vZ(11), vL(vL(vZ(0), vB([]byte{byte(v1 >> 8), byte(v1)})), vL(vZ(1), vB(k.rnd.bytes(3+hp%5))), change,
+					vL(vZ(1), vB(k.rnd.bytes(2+hp%7))), vL(vZ(1), vB(k.rnd.bytes(1))))))
+				hp++
 			}
 		}
 	}
